@@ -134,3 +134,46 @@ def canon_cnf_names(g, source_vars):
     rs = lambda k, x: [k, ren.get(x, x)] if k == "v" else [k, x]  # noqa: E731
     return {"vars": [ren.get(v, v) for v in g["vars"]], "ters": g["ters"], "start": g["start"],
             "prods": [[ren.get(h, h), [rs(k, x) for k, x in b]] for h, b in g["prods"]]}
+
+
+def counter_tie(cfg, drv, res, op="get_generating_symbols"):
+    """Step-level tie of the counter worklist behind get_generating_symbols / get_nullable_symbols
+    (Pfl.CFG.buildTables / genCounters): after any history of calls the cached `_remaining_lists`
+    and `_impacts` must be exactly the tables of a fresh grammar, and the symbols found the model's."""
+    rem_impl = getattr(cfg, "_remaining_lists", None)
+    imp_impl = getattr(cfg, "_impacts", None)
+    if rem_impl is None or imp_impl is None:
+        res.tag("counter_tables_absent")
+        return
+    g = extract(cfg)
+    for nullable, pyname in ((False, "get_generating_symbols"), (True, "get_nullable_symbols")):
+        m = drv.call("cfg.counters", G=g, nullable=nullable)
+        res.corr += 1
+        rem0 = {h: l for h, l in m["rem0"]}
+        got_rem = {getattr(h, "value", h): list(l) for h, l in rem_impl.items()}
+        if got_rem != rem0:
+            res.corr_break(op, "cached production counters differ from a fresh grammar's (not restored?)",
+                           detail={"impl": got_rem, "model": rem0})
+            return
+        if {h: l for h, l in m["rem"]} != rem0:
+            res.corr_break(op, "model counters not restored", detail={"model": m["rem"]})
+        imp = {}
+        for s, h, i in m["imp"]:
+            imp.setdefault(tuple(s), []).append((h, i))
+        got_imp = {tuple(xsym(s)): [(h.value, i) for h, i in l] for s, l in imp_impl.items()}
+        if got_imp != imp:
+            res.corr_break(op, "cached impact lists differ from the model",
+                           detail={"impl": str(got_imp), "model": str(imp)})
+            return
+        fresh = outcome_set(lambda: getattr(cfg, "_get_generating_or_nullable")(nullable))
+        if fresh is not None and fresh != sorted({tuple(s) for s in m["found"]}):
+            res.corr_break(pyname, "worklist result differs from the counter model",
+                           detail={"impl": fresh, "model": m["found"]})
+    res.tag("counter_tie")
+
+
+def outcome_set(fn):
+    try:
+        return sorted({tuple(xsym(x)) for x in fn()})
+    except Exception:  # pylint: disable=broad-except
+        return None
